@@ -108,6 +108,12 @@ pub fn handle_watch(conn: &mut Connection, parts: &[RespFrame], storage: &Arc<St
             RespFrame::BulkString(Some(bytes)) => {
                 let key = bytes.as_ref().clone();
                 
+                // A key that is already watched keeps its first baseline: a change made
+                // between the first WATCH and this one must still abort EXEC.
+                if conn.transaction_state.watched_keys.contains_key(&key) {
+                    continue;
+                }
+                
                 // Register the watch with storage engine
                 match storage.register_watch(conn.db_index, &key) {
                     Ok(baseline_counter) => {
